@@ -56,10 +56,18 @@ OP_SRC = {
     "FnStar": "Callable[[VarArg(%s)], %s]", "FnKw": "Callable[[NamedArg(%s, 'x')], %s]",
     "FnKwOpt": "Callable[[DefaultNamedArg(%s, 'x')], %s]", "FnStar2": "Callable[[KwArg(%s)], %s]",
     "Fn0": "Callable[[], %s]", "Fn2": "Callable[[%s, %s], %s]",
+    "Fn2Named": "Callable[[Arg(%s, 'x'), Arg(%s, 'y')], %s]",
 }
 # names the fixed part of the generated module defines (everything a term may mention)
 PLAIN_ATOMS = {"A", "B", "C", "D", "E", "object", "int", "str", "float", "bool", "P", "ImplA", "ImplB", "CoB",
                "Col", "TD1", "TD2", "NT", "T", "TB", "TV", "Rec", "Rec2", "PRec", "ImplRec"}
+
+PLAIN_ATOMS |= {"Meta", "OtherMeta", "SubMeta", "WM", "WMSub", "WO"}
+# atoms that cannot be written as an annotation: their type is the type of a NAME the fixed part of
+# the module declares (overloaded functions; class objects, i.e. the callable type of `A` itself).
+# render() gives "@name"; World.build takes the type from the module's symbol table.
+DECL_ATOMS = {"Ov1": "ov1", "Ov2": "ov2", "Ov3": "ov3", "Ov4": "ov4", "Ov5": "ov5",
+              "ObjA": "obj_A", "ObjB": "obj_B", "ObjWM": "obj_WM", "ObjWO": "obj_WO"}
 
 Term = dict  # {"op": str, "args": [Term, ...]}
 
@@ -81,6 +89,8 @@ def render(t: Term) -> str:
     if args and op in VT_PREFIX:
         return _variadic(op, [render(a) for a in args])
     if not args:
+        if op in DECL_ATOMS:
+            return "@" + DECL_ATOMS[op]
         if op in ATOM_SRC:
             return ATOM_SRC[op]
         if op in PLAIN_ATOMS:
@@ -103,7 +113,7 @@ def tsize(t: Term) -> int:
 
 HEADER = '''\
 from typing import (Any, Callable, Dict, Generic, List, Literal, NoReturn, Optional, Protocol, Tuple, Type,
-                    TypeVar, Union, Sequence, NamedTuple, Final)
+                    TypeVar, Union, Sequence, NamedTuple, Final, overload)
 from typing_extensions import TypedDict, Never, Unpack
 from mypy_extensions import Arg, DefaultArg, NamedArg, DefaultNamedArg, VarArg, KwArg
 import enum
@@ -152,6 +162,49 @@ class NT(NamedTuple):
     a: A
     b: int
 
+# metaclasses: instances of Meta / OtherMeta / SubMeta / type against Type[WM], Type[WO], Type[A] ...
+class Meta(type): ...
+class OtherMeta(type): ...
+class SubMeta(Meta): ...
+class WM(metaclass=Meta): ...
+class WMSub(WM): ...
+class WO(metaclass=OtherMeta): ...
+# class objects (the callable type of the class itself; a plain `obj_A = A` would declare an alias)
+obj_A = (A,)[0]
+obj_B = (B,)[0]
+obj_WM = (WM,)[0]
+obj_WO = (WO,)[0]
+
+# overloaded callables (parameter named x like the Arg(., 'x') callables of the universe), Any-free:
+# items related by subtyping to each other and to plain callables, 2-3 items, same and different arities
+@overload
+def ov1(x: B) -> A: ...
+@overload
+def ov1(x: E) -> E: ...
+def ov1(x: Any) -> Any: raise NotImplementedError
+@overload
+def ov2(x: A) -> B: ...
+@overload
+def ov2(x: E) -> E: ...
+def ov2(x: Any) -> Any: raise NotImplementedError
+@overload
+def ov3(x: A) -> A: ...
+@overload
+def ov3(x: A, y: A) -> A: ...
+def ov3(x: Any, y: Any = None) -> Any: raise NotImplementedError
+@overload
+def ov4(x: B) -> B: ...
+@overload
+def ov4(x: C) -> C: ...
+@overload
+def ov4(x: E) -> E: ...
+def ov4(x: Any) -> Any: raise NotImplementedError
+@overload
+def ov5(x: int) -> int: ...
+@overload
+def ov5(x: str) -> str: ...
+def ov5(x: Any) -> Any: raise NotImplementedError
+
 Rec = Union[int, List["Rec"]]
 Rec2 = Union[int, List["Rec2"]]
 class PRec(Protocol):
@@ -197,7 +250,7 @@ class World:
         from mypy.modulefinder import BuildSource
         from mypy.options import Options
 
-        body = "\n".join("    x%d: %s" % (i, s) for i, s in enumerate(sources)) or "    pass"
+        body = "\n".join("    x%d: %s" % (i, s) for i, s in enumerate(sources) if not s.startswith("@")) or "    pass"
         src = HEADER % {"decls": self.decls, "body": body}
         o = Options()
         o.incremental = True          # typeshed comes from the cache after the first (cold) build
@@ -220,7 +273,10 @@ class World:
         info = tree.names["Scope"].node
         out = []
         for i in range(len(sources)):
-            typ = info.names["x%d" % i].node.type
+            if sources[i].startswith("@"):       # a declared name: overloaded function, class object
+                typ = tree.names[sources[i][1:]].node.type
+            else:
+                typ = info.names["x%d" % i].node.type
             if typ is None:
                 raise MachineryError("no type for %s" % sources[i])
             out.append(typ)
@@ -241,7 +297,9 @@ def contains_any(typ: Any) -> bool:
             return True
 
         def visit_instance(self, t: Instance) -> bool:
-            if t.type.fullname == "builtins.type" or t.type.fallback_to_any:
+            # an instance of `type` or of a metaclass: typeshed's type.__call__(self, *args: Any,
+            # **kwds: Any) -> Any makes it compatible with every callable, i.e. Any in disguise
+            if t.type.fullname == "builtins.type" or t.type.fallback_to_any or t.type.is_metaclass():
                 return True
             return super().visit_instance(t)
 
@@ -482,8 +540,9 @@ def run_laws(d: str, workers: int, timeout: int, heap: str = "4g") -> Any:
 
 # =========================================================================== re-confirmation and minimisation
 A_ATOM = atom("A")
+SIMPLE_FN = {"op": "FnPos", "args": [atom("A"), atom("A")]}
 # atoms tried (in this order of preference, after size) as replacements of any sub-term
-PALETTE = [atom(a) for a in ("A", "B", "E", "None", "float", "int")]
+PALETTE = [atom(a) for a in ("A", "B", "E", "None", "float", "int", "WM", "WO", "object")]
 
 
 def _paths(t: Term, pre: tuple[int, ...] = ()) -> Iterable[tuple[int, ...]]:
@@ -523,6 +582,13 @@ def reductions(law: str, ts: tuple[Term, ...]) -> list[tuple[Term, ...]]:
             out.append(ts[:pos] + (a,) + ts[pos + 1:])
         for path in _paths(x):                           # replace a sub-term by a plain atom
             old = _at(x, path)
+            if not old["args"]:
+                for fam in FAMILIES:                     # a declared atom by an earlier one of its family
+                    if old["op"] in fam:
+                        for o in fam[:fam.index(old["op"])]:
+                            out.append(ts[:pos] + (_replace(x, path, atom(o)),) + ts[pos + 1:])
+            elif old["op"].startswith("Fn") and old != SIMPLE_FN:   # any callable by the simplest one
+                out.append(ts[:pos] + (_replace(x, path, SIMPLE_FN),) + ts[pos + 1:])
             for a in PALETTE:
                 # a compound sub-term by any palette atom, an atom only by an earlier palette atom
                 if old["args"] or (old != a and (old not in PALETTE or PALETTE.index(a) < PALETTE.index(old))):
@@ -553,17 +619,26 @@ def case_key(law: str, ts: tuple[Term, ...]) -> str:
 # of the universe (A vs int vs None ...); the identifying key of a finding abstracts them to `_`
 # and keeps everything structural (constructors, parameter kinds, Any, type variables, NT, ...)
 KEY_ABSTRACT = {"A", "B", "C", "D", "E", "object", "int", "str", "float", "bool", "None",
-                "Lit1", "Lit2", "LitA", "LitTrue", "ImplA", "ImplB", "Col", "ColR", "ColG"}
+                "Lit1", "Lit2", "LitA", "LitTrue", "ImplA", "ImplB", "Col", "ColR", "ColG", "WM", "WMSub", "WO"}
+
+
+DECL_SHAPE = {"Ov1": "<overload>", "Ov2": "<overload>", "Ov3": "<overload>", "Ov4": "<overload>", "Ov5": "<overload>",
+              "ObjA": "<class object>", "ObjB": "<class object>",
+              "ObjWM": "<class object with metaclass>", "ObjWO": "<class object with metaclass>"}
+# families of declared atoms: a member may be replaced by an earlier one while minimising
+FAMILIES = [["Ov1", "Ov2", "Ov3", "Ov4", "Ov5"], ["ObjA", "ObjB"], ["ObjWM", "ObjWO"]]
 
 
 def render_shape(t: Term) -> str:
     op, args = t["op"], t["args"]
     if not args:
+        if op in DECL_SHAPE:
+            return DECL_SHAPE[op]
         return "_" if op in KEY_ABSTRACT else render(t)
-    if op == "Union":
-        return "Union[%s]" % ", ".join(render_shape(a) for a in args)
-    if op == "Opt":
-        return "Optional[%s]" % render_shape(args[0])
+    if op == "Union":                    # item order is not part of the shape
+        return "Union[%s]" % ", ".join(sorted(render_shape(a) for a in args))
+    if op == "Opt":                      # Optional[X] is Union[X, None]: one shape
+        return "Union[%s]" % ", ".join(sorted([render_shape(args[0]), "_"]))
     if op in VT_PREFIX:
         return _variadic(op, [render_shape(a) for a in args])
     return OP_SRC[op] % tuple(render_shape(a) for a in args)
@@ -988,7 +1063,7 @@ CONTRA_SAFE_ATOMS = {"A", "B", "C", "D", "E", "str", "None", "T", "TB", "ImplA",
 
 def _clean_sub(t: Term) -> bool:
     bad_ops = {"FnNamed", "FnOpt", "FnOptNamed", "FnStar", "FnKw", "FnKwOpt", "FnStar2", "Fn0", "Fn2", "Items"}
-    bad_atoms = {"NT", "type", "CallAny"}
+    bad_atoms = {"NT", "type", "CallAny"} | set(DECL_ATOMS)   # (declared names cannot be nested in an annotation)
     if t["op"] in bad_ops or (not t["args"] and t["op"] in bad_atoms):
         return False
     return all(_clean_sub(a) for a in t["args"])
@@ -1118,6 +1193,10 @@ def main(argv: list[str]) -> int:
     if replay:
         return run_replay_file(replay)
     from concurrent.futures import ThreadPoolExecutor
+    import mypy
+    if not os.path.realpath(mypy.__file__).startswith(os.path.realpath(REPO) + os.sep):
+        # e.g. VERIF_REPO names a directory that does not exist: another mypy would be checked silently
+        raise MachineryError("mypy is imported from %s, not from the tree under test %s" % (mypy.__file__, REPO))
     v = Verdict(PID, tier, seed)
     rnd = random.Random(seed)
     quick = tier == "quick"
